@@ -25,7 +25,9 @@ CONSTANTS
     SearchShapes,   \* ... plus whole strings: multi-word strings with digits-only words and other strings that give the
                     \* plain Gopher line the look of another protocol's request grammar; long strings (block classes)
     DeepNames6,     \* names of the deep tree kind (selector-length dimension)
-    SearchSels,     \* selectors of search items (type 7): reserved characters, Virtual "?args"
+    SearchSels,     \* selectors of search items (type 7): reserved characters, Virtual "?args"; a selector WITHOUT a
+                    \* leading slash is one authored in a link file with this server's own host and port (only then the
+                    \* slash is not added): a local item for the Gopher family, a gopher:// URL for the URL views
     Views6,
     Kinds6, Inner6, HLs6        \* content trees: subject kind x LocalNames, inner names, handler lists
 
@@ -43,6 +45,7 @@ Entries ==
 Searches == {x \in StringsUpTo(SearchTokens, MaxSearch) \cup SearchShapes : SearchInScope(x)}
 Dummy == E("i", "fake", "(NULL)", 0)
 
+SearchItem(x) == IF StartsWith(x, "/") THEN E("7", x, "", 0) ELSE E("7", x, ServerName, ServerPort)
 NoCase == [k |-> "file", n |-> "a", ik |-> "none", m |-> "in"]
 Cases6 == {[k |-> k, n |-> n, ik |-> "none", m |-> "in"] : k \in Kinds6 \cap {"file", "mbox", "maildir"}, n \in LocalNames}
           \cup {x \in {[k |-> k, n |-> n, ik |-> ik, m |-> m] : k \in Kinds6 \cap {"dir", "zip", "mapdir"}, n \in {"a", "a b", "^"},
@@ -56,14 +59,15 @@ TreeVerdict(pp, cc, hh) ==
 
 Init == /\ p \in Views6 /\ res = "new"
         /\ \/ mode = "entry" /\ e \in Entries /\ s = "" /\ c = NoCase /\ hl = "default"
-           \/ mode = "search" /\ e \in {E("7", x, "", 0) : x \in SearchSels} /\ s \in Searches /\ c = NoCase /\ hl = "default"
+           \/ mode = "search" /\ e \in {SearchItem(x) : x \in SearchSels} /\ s \in Searches /\ c = NoCase /\ hl = "default"
            \/ mode = "tree" /\ e = Dummy /\ s = "" /\ c \in Cases6 /\ hl \in HLs6
 Compute ==
     /\ res = "new"
     /\ res' = IF mode = "tree" THEN TreeVerdict(p, c, hl)
               ELSE IF mode = "entry"
               THEN (IF EntryAgrees(p, e) THEN "ok" ELSE "EntryDiffers")
-              ELSE (IF SearchReaches(p, Target(p, e), RootRef(p), s) = s THEN "ok"
+              ELSE (IF ~IsLocal(p, Target(p, e)) THEN "ok"               \* no search form for p: nothing to type into
+                    ELSE IF SearchReaches(p, Target(p, e), RootRef(p), s) = s THEN "ok"
                     ELSE IF PlusFlagAmbiguity(p, s) THEN "PlusFlagAmbiguity"
                     ELSE IF SearchCapturedBy(p, Target(p, e), RootRef(p), s) # "none"
                          THEN "SearchCapturedBy_" \o SearchCapturedBy(p, Target(p, e), RootRef(p), s)
@@ -75,7 +79,10 @@ EntriesAgree == res # "EntryDiffers"
 SearchesArrive == res # "SearchDiffers"
 TreesAgree == res # "TreeDiffers"
 \* expected to be violated while the findings are open (witnesses that the deviations are reachable)
-NoNamedDeviation == res \notin {"PlusFlagAmbiguity"}
-\* no search request is claimed by another protocol class (the Gopher+ flag ambiguity aside, which is named separately)
+NoNamedDeviation == res \notin {"PlusFlagAmbiguity", "SearchCapturedBy_SpartanProtocol"}
+\* no search request is claimed by another protocol class (the Gopher+ flag ambiguity aside, which is named separately),
+\* except the residue of the Spartan shape: fix c3ed498 tells a Gopher line by its leading slash, so the line of a
+\* slash-less selector ("echo.pyg<TAB>a b 1") is still a well-formed Spartan line
 OnlyKnownCaptures == ~StartsWith(res, "SearchCapturedBy_")
+                     \/ (res = "SearchCapturedBy_SpartanProtocol" /\ p = "G" /\ ~StartsWith(e.sel, "/"))
 =============================================================================
